@@ -373,6 +373,49 @@ pub fn run(ctx: &Ctx) {
             });
         }
     }
+    // the public `probs` field re-assigned after construction: sampling and logp must follow the new probabilities
+    for ty in ["f32", "f64"] {
+        for (w0, p1) in [(vec![1.0, 1.0, 2.0], vec![0.5, 0.0, 0.5]), (vec![0.0, 3.0], vec![0.75, 0.25]), (vec![1.0, 1.0, 1.0, 1.0], vec![0.0, 0.0, 0.25, 0.75])] {
+            let case = json!({"ty": ty, "weights": weights_json(&w0), "probs_assigned_afterwards": p1, "mode": "reassign"});
+            ctx.evals(1);
+            let grid = if ty == "f32" { U24 } else { 1.0 / 9007199254740992.0 };
+            let mut cums = vec![0.0];
+            for p in p1.iter() {
+                cums.push(cums.last().unwrap() + p);
+            }
+            let mut probes = vec![0.0, grid, 0.1, 0.4, 0.6, 0.9, 1.0 - grid];
+            for cu in cums.iter() {
+                for dl in [-2.0, -1.0, 1.0, 2.0] {
+                    let v = cu + dl * grid;
+                    if (0.0..1.0).contains(&v) {
+                        probes.push(v);
+                    }
+                }
+            }
+            for r in probes {
+                let cell = Rc::new(Cell::new(r));
+                let idx = if ty == "f32" {
+                    let mut c = Categorical::<f32>::new(w0.iter().map(|x| *x as f32).collect());
+                    c.probs = p1.iter().map(|x| *x as f32).collect();
+                    let lp_ok = (0..p1.len()).all(|i| (c.logp(i) as f64 - (p1[i] as f32).ln() as f64).abs() < 1e-6 || (p1[i] == 0.0 && c.logp(i) == f32::NEG_INFINITY));
+                    if !lp_ok {
+                        ctx.violation(Violation::new("C16:logp-after-reassign", "logp does not reflect the re-assigned probabilities", case.clone()));
+                    }
+                    with_variates(cell, || catch(|| c.sample()))
+                } else {
+                    let mut c = Categorical::<f64>::new(w0.clone());
+                    c.probs = p1.clone();
+                    with_variates(cell, || catch(|| c.sample()))
+                };
+                ctx.transitions(1);
+                match idx {
+                    Ok(i) if i < p1.len() && p1[i] > 0.0 && r >= cums[i] - 4.0 * grid && r <= cums[i + 1] + 4.0 * grid => ctx.outcome("reassigned-probs probes ok", 1),
+                    Ok(i) => ctx.violation(Violation::new("C16:sample-after-reassign", format!("after assigning probs = {p1:?} the variate {r} selects category {i}"), case.clone())),
+                    Err(m) => ctx.violation(Violation::new("C16:panic", m, case.clone())),
+                }
+            }
+        }
+    }
     // sweep set
     let mut sweep: Vec<Vec<f64>> = all_vectors(ctx.tier.pick(2, 3), top);
     // zero-containing short vectors over {0..3}
@@ -413,6 +456,7 @@ pub fn check_case(ctx: &Ctx, case: &Value) {
     match case["mode"].as_str() {
         Some("sweep") => sweep_f32(ctx, &w),
         Some("strided") => strided_f64(ctx, &w),
+        Some("reassign") => run(ctx),
         _ => check_static_and_probes(ctx, ty, &w),
     }
 }
